@@ -131,19 +131,24 @@ GeoOk(ev, o) == GeoOkV(ev, o, GeoV(ev, o))
 \* two consecutive tail-call sites (component i = site i): pathwise law per component, and
 \* the inferred noises are independent: the number of keys on which they have the same sign
 \* is within the Hoeffding bound hb of n/2 (C29.indep)
-Noise1(ev, o) == IF ev.fam = "uniform_normal_reparam" THEN 2 * XF(ev, o, 1) - ev.a[1] * S ELSE Eps1(ev, o)
-Noise2(ev, o) == Eps2(ev, o, 0)
+\* (mv_diag_batched: o.p, o.t hold row 1 then row 2; the compared noises are those of the first component of each row)
+RowOf(o, k) == [p |-> << o.p[2 * k - 1], o.p[2 * k] >>, t |-> << o.t[2 * k - 1], o.t[2 * k] >>]
+Noise1(ev, o) == IF ev.fam = "uniform_normal_reparam" THEN 2 * XF(ev, o, 1) - ev.a[1] * S
+                 ELSE IF ev.fam = "mv_diag_batched" THEN Eps1(ev, RowOf(o, 1)) ELSE Eps1(ev, o)
+Noise2(ev, o) == IF ev.fam = "mv_diag_batched" THEN Eps1(ev, RowOf(o, 2)) ELSE Eps2(ev, o, 0)
 RECURSIVE SameSign(_, _)
 SameSign(ev, i) == IF i > Len(ev.outs) THEN 0
                    ELSE (IF (Noise1(ev, ev.outs[i]) > 0) = (Noise2(ev, ev.outs[i]) > 0) THEN 1 ELSE 0) + SameSign(ev, i + 1)
 IndepOk(ev) == ev.hb = 0 \/ Diff(2 * SameSign(ev, 1), Len(ev.outs)) <= 2 * ev.hb
+RowOk(ev, ro) == PathOk2(ev, ro, Eps1(ev, ro), Eps2(ev, ro, 0))
 TwoOk(ev, o) == IF ev.fam = "two_normal_reparam" THEN PathOk2(ev, o, Eps1(ev, o), Eps2(ev, o, 0))
+                ELSE IF ev.fam = "mv_diag_batched" THEN RowOk(ev, RowOf(o, 1)) /\ RowOk(ev, RowOf(o, 2))
                 ELSE /\ Close(o.t[1], ev.c[1] * S, 2) /\ XF(ev, o, 1) >= -2 /\ XF(ev, o, 1) <= ev.a[1] * S + 2
                      /\ SaneEps(Noise2(ev, o)) => Close(o.t[2], PathT2(ev, 0, Noise2(ev, o)), 2 * TolC)
 
 ContOutOk(ev, o) ==
   CASE ev.fam \in {"normal_reparam", "mv_normal_diag_reparam", "mv_normal_reparam"} -> PathwiseOk(ev, o)
-    [] ev.fam \in {"two_normal_reparam", "uniform_normal_reparam"} -> TwoOk(ev, o)
+    [] ev.fam \in {"two_normal_reparam", "uniform_normal_reparam", "mv_diag_batched"} -> TwoOk(ev, o)
     [] ev.fam = "normal_reinforce" -> ScoreOk(ev, o)
     [] ev.fam = "uniform" -> UniformOk(ev, o)
     [] ev.fam = "beta_implicit" -> BetaOk(ev, o)
@@ -151,7 +156,7 @@ ContOutOk(ev, o) ==
 ContVerdict(ev) ==
   IF ev.status # "ok" THEN "C29.run"
   ELSE IF ~(\A i \in 1..Len(ev.outs) : ContOutOk(ev, ev.outs[i])) THEN "C29.cont"
-  ELSE IF ev.fam \in {"two_normal_reparam", "uniform_normal_reparam"} /\ ~IndepOk(ev) THEN "C29.indep"
+  ELSE IF ev.fam \in {"two_normal_reparam", "uniform_normal_reparam", "mv_diag_batched"} /\ ~IndepOk(ev) THEN "C29.indep"
   ELSE "ok"
 
 Verdict(ev) ==
